@@ -1,6 +1,7 @@
 import Xp.Base.JsonIO
 import Xp.Model.C10
 import Xp.Model.C10Compose
+import Xp.Model.C10World
 namespace Xp.C10
 open Lean (Json)
 open Xp.IOx
@@ -107,7 +108,8 @@ def patchOf (j : Json) : Patch :=
     xfs := (arr j "xfs").map xfOf,
     policy := optOf (fld j "policy") policyOf,
     mergeOrc := (arr j "mergeOrc").map vOf,
-    applyOrc := (arr j "applyOrc").map vOf }
+    applyOrc := (arr j "applyOrc").map vOf,
+    setName := optStrOf j "set" }
 
 def errJson : Option E → Json
   | none => .str ""
@@ -241,6 +243,64 @@ def runCompose (scn : Json) : Json × Bool × String :=
   let ok := unrenderedNotWritten r
   (out, ok, if ok then "" else "C10:unrendered-applied")
 
+/-! ### cseq: a sequence of reconciles by one long-lived composer; the model is run per step on
+what the harness recorded as that step's inputs -/
+
+def gotOf (j : Json) : Got :=
+  match str j "k" with
+  | "found" => .found (vOf (fld j "v"))
+  | "err" => .err (str j "cls")
+  | _ => .notFound
+
+def envOf (j : Json) : Env :=
+  { got := gotOf (fld j "got"),
+    live := match fld j "live" with
+      | .null => none
+      | l => some (vOf l),
+    fault := match str j "fault" with
+      | "" => none
+      | c => some c }
+
+/-- a template of a step as authored (association filled in by the harness) -/
+def wtplOf (j : Json) : Tpl :=
+  { name := optStrOf j "name",
+    base := match fld j "base" with
+      | .null => none
+      | b => some (vOf b),
+    patches := (arr j "patches").map patchOf,
+    refKind := str j "refKind", refApiVersion := str j "refApiVersion", refName := str j "refName",
+    nameGen := match str j "nameGen" with
+      | "fail" => .fail
+      | "" => .keep
+      | n => .name n,
+    applyOutcome := .ok }
+
+def composeJson (r : ComposeRes) : Json :=
+  Json.mkObj [
+    ("err", .str r.err),
+    ("synced", Json.arr (r.synced.map Json.bool).toArray),
+    ("refs", Json.arr (r.refs.map fun (k, n) => Json.mkObj [("kind", .str k), ("name", .str n)]).toArray),
+    ("writes", Json.arr (r.writes.map wJson).toArray),
+    ("bodies", Json.arr (r.sent.map fun s => vJson s.body).toArray),
+    ("stored", Json.arr (r.stored.map fun o => vJson (maskNumbers ((o.get? "spec").getD .null))).toArray)]
+
+def runStep (st : Json) : ComposeRes :=
+  let xr := vOf (fld st "xr")
+  let sets : List PatchSet := (arr st "patchSets").map fun s => { name := str s "name", patches := (arr s "patches").map patchOf }
+  let tj := arr st "tpls"
+  let tpls := tj.map wtplOf
+  let inl := tj.map fun t => (arr t "inl").map patchOf
+  let envs := tj.map envOf
+  let w : World := { env := fun i => envs.getD i {},
+                     updFails := str st "upd" != "" || bool st "xrEdit",
+                     xrApplyFails := str st "xrApply" != "" }
+  stepW xr sets tpls inl w
+
+def runSeq (scn : Json) : Json × Bool × String :=
+  let rs := (arr (fld scn "seq") "steps").map runStep
+  let ok := rs.all unrenderedNotWritten
+  (Json.mkObj [("steps", Json.arr (rs.map composeJson).toArray)], ok, if ok then "" else "C10:unrendered-applied")
+
 def handler : Handler := fun scn =>
   if str scn "ood" != "" then .error s!"outside the model's domain: {str scn "ood"}" else
   match str scn "kind" with
@@ -248,6 +308,7 @@ def handler : Handler := fun scn =>
   | "resolve" => .ok (runResolve scn)
   | "render" => .ok (runRender scn)
   | "compose" => .ok (runCompose scn)
+  | "cseq" => .ok (runSeq scn)
   | k => .error s!"unknown scenario kind {k}"
 
 end Xp.C10
